@@ -309,7 +309,50 @@ theorem utc_gate_is_the_year :
     epoch_set_kw 1971 12 31 0 0 0 (some true) none = .ok (compute_jde 1971 12 31) := by
   decide +kernel
 
+/-- the leap-second table as the model carries it: 27 entries, keys strictly increasing (so `sorted()` is the identity),
+    the k-th value is k, and the keys are the IERS dates (1 January = y, 1 July = y + 1/2) -/
+theorem table_shape :
+    leap_table.length = 27 ∧ leap_years.Pairwise (· < ·) ∧ leap_values = (List.range 27).map (fun k => (k : Int) + 1) ∧
+    leap_years = iersDates.map iersKey := by
+  refine ⟨by decide, by decide +kernel, by decide, leap_years_eq_keys⟩
+
+/-- "… and by nothing before 1972", read-back direction: an instant whose TT date is before 1972 reads back unchanged
+    with `utc=True` (every valid date, every time of day) -/
+theorem readback_utc_before_1972 (y m d : Int) (f : ℚ) (h : Valid y m d) (hy : y < 1972) (hf0 : 0 ≤ f) (hf1 : f < 1) :
+    get_date_kw (compute_jde y m ((d : ℚ) + f)) (some true) none = .ok (y, m, (d : ℚ) + f) := by
+  unfold get_date_kw
+  rw [compute_jde_frac y m d f hf0 hf1 h, get_date_valid y m d f h hf0 hf1]
+  have hy' : ¬ y ≥ 1972 := by omega
+  simp [get_date_deltasec, hy', peq_zero]
+
+/-- the constructor refuses, with ValueError and whatever the kwargs, a time of day outside 0 ≤ h < 24, 0 ≤ min < 60,
+    0 ≤ s < 60 — in particular the label 23:59:60 of a leap second itself cannot be entered -/
+theorem refuses_time_fields_out_of_range (y m : Int) (d h mi s : ℚ) (utc : Option Bool) (lsec : Option ℚ)
+    (hbad : h < 0 ∨ 24 ≤ h ∨ mi < 0 ∨ 60 ≤ mi ∨ s < 0 ∨ 60 ≤ s) :
+    epoch_set_kw y m d h mi s utc lsec = .error .valueError := by
+  have hc : check_values y (get_month_int m) d h mi s = .error .valueError := by
+    unfold check_values
+    by_cases c0 : y < -4712
+    · simp only [c0, if_true]
+    by_cases c1 : (plt d 1 || ple 32 d) = true
+    · simp only [c0, c1, if_true, if_false]
+    by_cases c2 : (plt h 0 || ple 24 h) = true
+    · simp [c0, c1, c2]
+    by_cases c3 : (plt mi 0 || ple 60 mi) = true
+    · simp [c0, c1, c2, c3]
+    by_cases c4 : (plt s 0 || ple 60 s) = true
+    · simp [c0, c1, c2, c3, c4]
+    exfalso
+    simp only [plt, ple, Bool.or_eq_true, decide_eq_true_eq, not_or, not_lt, not_le] at c2 c3 c4
+    rcases hbad with hb | hb | hb | hb | hb | hb <;> linarith [c2.1, c2.2, c3.1, c3.2, c4.1, c4.2]
+  unfold epoch_set_kw
+  rw [hc]
+
+theorem leap_second_label_refused : epoch_set_kw 2016 12 31 23 59 60 (some true) none = .error .valueError :=
+  refuses_time_fields_out_of_range _ _ _ _ _ _ _ _ (by norm_num)
+
 -- Non-vacuity: the hypotheses are met by concrete inputs.
+example : Valid 1971 12 31 ∧ (1971 : Int) < 1972 := by decide
 example : ((-500 : Int) ≤ 2050 ∧ (2050 : Int) < 500) ∨ ((1600 : Int) ≤ 2050 ∧ (2050 : Int) < 2150) := by decide
 example : dtArg 1000 3 = 1000 ∧ dtArg 2000 1 = 2000 + 1 / 24 := by constructor <;> norm_num [dtArg]
 example : epoch_set_kw 2016 12 31 23 59 59 none none = .ok (compute_jde 2016 12 (31 + (23 / 24 + 59 / 1440 + 59 / 86400)) + 0) := by
